@@ -324,20 +324,24 @@ Section Proofs.
 
   Lemma K_start : forall hd iv junk ns c progs, 0 <= c -> K (start V hd iv junk ns c progs).
   Proof.
-    intros. unfold start. constructor; simpl; try lia.
-    - rewrite L.cnt_none; auto. intros j t Hj. apply (fresh_threads _ _ _ _ Hj).
-    - intros j t Hj Hs. exfalso. apply (fresh_threads _ _ _ _ Hj). auto.
+    intros. unfold start. apply mkK; simpl.
+    - lia.
+    - rewrite L.cnt_none; auto. intros j t Hj. destruct (fresh_threads _ _ _ _ Hj) as (A & B & C); auto.
+    - lia.
+    - intros j t Hj Hs. exfalso. destruct (fresh_threads _ _ _ _ Hj) as (A & B & C); auto.
     - intros Hr. apply Z.eqb_eq in Hr. auto.
-    - intros j t Hj Hp. exfalso. apply (fresh_threads _ _ _ _ Hj). auto.
+    - intros j t Hj Hp. exfalso. destruct (fresh_threads _ _ _ _ Hj) as (A & B & C); auto.
   Qed.
 
   Lemma K_reset : forall s n progs, 0 <= n -> K (reset V s n progs).
   Proof.
-    intros. unfold reset. constructor; simpl; try lia.
-    - rewrite L.cnt_none; auto. intros j t Hj. apply (fresh_threads _ _ _ _ Hj).
-    - intros j t Hj Hs. exfalso. apply (fresh_threads _ _ _ _ Hj). auto.
+    intros. unfold reset. apply mkK; simpl.
+    - lia.
+    - rewrite L.cnt_none; auto. intros j t Hj. destruct (fresh_threads _ _ _ _ Hj) as (A & B & C); auto.
+    - lia.
+    - intros j t Hj Hs. exfalso. destruct (fresh_threads _ _ _ _ Hj) as (A & B & C); auto.
     - destruct (n =? 0) eqn:Hn; [apply Z.eqb_eq in Hn; auto|discriminate].
-    - intros j t Hj Hp. exfalso. apply (fresh_threads _ _ _ _ Hj). auto.
+    - intros j t Hj Hp. exfalso. destruct (fresh_threads _ _ _ _ Hj) as (A & B & C); auto.
   Qed.
 
   (* the conclusion of the counting theorems: every expected submission has been made and has decremented *)
@@ -407,6 +411,74 @@ Section Proofs.
     - apply orb_false_elim in He. destruct He as (_ & Hnz). discriminate.
     - rewrite k9t in He0 by reflexivity. discriminate.
   Qed.
+
+  Lemma frozen_after_arrival_start : forall hd iv junk ns c progs sched i s' t,
+      let s := exec V vop (start V hd iv junk ns c progs) sched in
+      counter s = 0 -> nth_error (thrs s) i = Some t -> step V vop s i = Some s' -> clean s' ->
+      match t_pc t with PSlot _ _ | PDec _ | PAdd _ | PEmpty => False | _ => True end.
+  Proof.
+    intros hd iv junk ns c progs sched i s' t s H0 Hi Hstep Hc.
+    pose proof (clean_mono _ _ _ Hstep Hc) as Hcs.
+    assert (HK : K s).
+    { apply K_exec; auto. apply K_start. apply clean_exec_mono in Hcs. destruct Hcs as (_ & _ & H & _). exact H. }
+    eapply frozen_after_arrival; eauto.
+  Qed.
+
+  (* ---------------------------------------------------------------- value: the algebra of slots and collation *)
+  (* a slot update folds the value into the total of the slots exactly as it folds it into the multiset of
+     submitted values, whatever slot (placement) is used *)
+  Lemma slot_step_reduce : forall s i t v k s',
+      nth_error (thrs s) i = Some t -> t_pc t = PSlot v k -> (k < length (slots s))%nat ->
+      step V vop s i = Some s' ->
+      submitted s' = submitted s ++ [v] /\
+      forall a, reduce (slots s') a = vop (reduce (slots s) a) v /\ reduce (submitted s') a = vop (reduce (submitted s) a) v.
+  Proof.
+    intros s i t v k s' Hi Hp Hk Hstep. unfold step in Hstep. rewrite Hi, Hp in Hstep.
+    inversion Hstep; subst s'; simpl. split; auto. intros a. split.
+    - apply reduce_updn. auto.
+    - rewrite reduce_app. reflexivity.
+  Qed.
+
+  (* no other step touches the slots or the submitted multiset *)
+  Lemma other_step_keeps_slots : forall s i t s',
+      nth_error (thrs s) i = Some t -> (forall v k, t_pc t <> PSlot v k) -> step V vop s i = Some s' ->
+      slots s' = slots s /\ submitted s' = submitted s.
+  Proof.
+    intros s i t s' Hi Hp Hstep. unfold step in Hstep. rewrite Hi in Hstep.
+    destruct (t_pc t) as [|v k|fresh| |k| |n| |tgt|tgt|] eqn:E; try discriminate; inversion Hstep; subst s'; simpl; auto.
+    exfalso. eapply Hp; eauto.
+  Qed.
+
+  (* the collation (PC0 then PCol 0 .. n-1) computes the reduction of the slots *)
+  Lemma collate_fold : forall (sl : list V) d k a, (k <= length sl)%nat ->
+      fold_left (fun r j => vop r (nth j sl d)) (seq 0 k) a = reduce (firstn k sl) a.
+  Proof.
+    intros sl d. induction k as [|k IH]; intros a Hk; [reflexivity|].
+    rewrite seq_S, fold_left_app. rewrite IH by lia.
+    rewrite (firstn_S_nth sl k d) by lia. rewrite reduce_app. reflexivity.
+  Qed.
+
+  Lemma collate_steps : forall s i t s',
+      nth_error (thrs s) i = Some t -> step V vop s i = Some s' ->
+      match t_pc t with
+      | PC0 => result s' = initv s
+      | PCol k => result s' = vop (result s) (nth k (slots s) (initv s))
+      | PCopy => exists t', nth_error (thrs s') i = Some t' /\ t_got t' = t_got t ++ [Some (result s)]
+      | _ => result s' = result s
+      end.
+  Proof.
+    intros s i t s' Hi Hstep. unfold step in Hstep. rewrite Hi in Hstep.
+    destruct (t_pc t) as [|v k|fresh| |k| |n| |tgt|tgt|] eqn:E; try discriminate; inversion Hstep; subst s'; simpl; auto.
+    rewrite updn_upd. erewrite L.nth_upd_eq by eauto. eexists. split; [reflexivity|].
+    destruct (next_facts (hasdata s) (mkthr V PCopy (t_prog t) (t_got t ++ [Some (result s)]))) as (_ & _ & _ & _ & ->). reflexivity.
+  Qed.
+
+  (* hence: slots all equal to a neutral initial value, then any sequence of slot updates with values vs,
+     then a collation, gives the reduction of vs *)
+  Lemma collate_of_slots : forall (sl vs : list V) e,
+      (forall x, vop e x = x) -> reduce sl e = reduce vs e ->
+      fold_left (fun r j => vop r (nth j sl e)) (seq 0 (length sl)) e = reduce vs e.
+  Proof. intros sl vs e He H. rewrite collate_fold by lia. rewrite firstn_all. auto. Qed.
 
   (* ---------------------------------------------------------------- reset *)
   Lemma reset_fresh_pos : forall s n progs, n <> 0 ->
